@@ -94,6 +94,27 @@ Qed.
 Lemma firstn_skipn_len {A} (l : list A) n m : length l = (n + m)%nat -> length (skipn n l) = m.
 Proof. intros. rewrite skipn_length. lia. Qed.
 
+(* ---- the child index with the hardened bit ---- *)
+Definition child_number (i : Z) (h : bool) : Z := if h then i + 2 ^ 31 else i.
+
+Lemma index_bits i (h : bool) : 0 <= i < 2 ^ 31 ->
+  (if h then Z.lor (Z.land i 2147483647) 2147483648 else Z.land i 2147483647) = child_number i h.
+Proof. intros H. rewrite land_mask by exact H. destruct h; cbn; [apply lor_hbit; exact H|reflexivity]. Qed.
+
+Lemma range_tests i : 0 <= i < 2 ^ 31 -> (i <? 0) = false /\ (2147483648 <=? i) = false.
+Proof. intros H. split; [apply Z.ltb_ge|apply Z.leb_gt]; lia. Qed.
+
+Lemma child_number_range i h : 0 <= i < 2 ^ 31 -> 0 <= child_number i h < 2 ^ 32.
+Proof. intros H. unfold child_number. destruct h; lia. Qed.
+
+Lemma hardened_child_number i h : 0 <= i < 2 ^ 31 -> hardened (child_number i h) = h.
+Proof.
+  intros H. unfold hardened, child_number. destruct h; [apply Z.leb_le|apply Z.leb_gt]; lia.
+Qed.
+
+Lemma from_bytes_32_nonneg b : 0 <= from_bytes_32 b.
+Proof. unfold from_bytes_32. lia. Qed.
+
 (* ---------------------------------------------------------------------------------------------- *)
 Section WithGroup.
 Variable pt : Type.
@@ -127,6 +148,13 @@ Hypothesis unsec_sec : forall P, P <> pO -> unsec (sec P) = Ret P.
 Hypothesis fuel_pos : (0 < loop_fuel)%nat.
 Hypothesis b58_roundtrip : forall c b, b58dec c (b58enc c b) = Some b.
 
+(* lia looks at every hypothesis of the context and would make each lemma depend on all Section hypotheses:
+   drop the ones that are not arithmetic first *)
+Ltac clr := try clear b58_roundtrip; try clear b58enc; try clear b58dec; try clear unsec_sec; try clear unsec;
+  try clear xy; try clear dsha256; try clear sec_head; try clear sec_len; try clear hash160_len;
+  try clear hmac_len; try clear pt_eqb_spec; try clear smul_zero; try clear smul_mod; try clear smul_add.
+Ltac glia := clr; lia.
+
 Notation node := (node pt).
 Notation mkNode := (mkNode pt).
 Notation key_init := (key_init pt pO smul pG order pt_eqb).
@@ -145,7 +173,7 @@ Lemma pt_eqb_false P Q : P <> Q -> pt_eqb P Q = false.
 Proof. intros H. destruct (pt_eqb P Q) eqn:E; [|reflexivity]. apply pt_eqb_spec in E. contradiction. Qed.
 
 Lemma smul_nonzero k : 1 <= k < order -> smul k pG <> pO.
-Proof. intros H E. apply smul_zero in E. rewrite Z.mod_small in E by lia. lia. Qed.
+Proof. intros H E. apply smul_zero in E. rewrite Z.mod_small in E by glia. glia. Qed.
 
 (* well-formed node: what __init__ guarantees *)
 Definition wf_node (nd : node) : Prop :=
@@ -160,7 +188,7 @@ Proof.
   intros H. unfold Bip32.key_init.
   replace ((k <? 1) || (order <=? k)) with false.
   - rewrite pt_eqb_false by (apply smul_nonzero; exact H). reflexivity.
-  - symmetry. apply orb_false_intro; [apply Z.ltb_ge|apply Z.leb_gt]; lia.
+  - symmetry. apply orb_false_intro; [apply Z.ltb_ge|apply Z.leb_gt]; glia.
 Qed.
 
 Lemma key_init_pub P : P <> pO -> key_init None (Some P) = Ret (None, P).
@@ -171,8 +199,8 @@ Lemma node_init_prv chain d f i k :
   node_init chain d f i (Some k) None = Ret (mkNode chain d f i (Some k) (smul k pG)).
 Proof.
   intros Hc Hf Hk. unfold Bip32.node_init. rewrite key_init_prv by exact Hk. cbn [bind].
-  replace (k =? 0) with false by (symmetry; apply Z.eqb_neq; lia).
-  rewrite to_bytes_32_ok by lia. cbn [bind]. rewrite Hc, Hf. reflexivity.
+  replace (k =? 0) with false by (symmetry; apply Z.eqb_neq; glia).
+  rewrite to_bytes_32_ok by glia. cbn [bind]. rewrite Hc, Hf. reflexivity.
 Qed.
 
 Lemma node_init_pub chain d f i P :
@@ -194,7 +222,7 @@ Proof.
     destruct (Nat.eqb (length f) 4) eqn:Lf; cbn [negb] in H; [|discriminate].
     injection H as <-. apply Nat.eqb_eq in Lc, Lf. apply orb_false_elim in R. destruct R as [R1 R2].
     apply Z.ltb_ge in R1. apply Z.leb_gt in R2.
-    repeat split; cbn; try assumption; try lia.
+    repeat split; cbn; try assumption; try glia.
     intros Q. rewrite <- Q in E. rewrite (proj2 (pt_eqb_spec _ _) eq_refl) in E. discriminate.
   - destruct (pt_eqb P pO) eqn:E; [discriminate|]. cbn [bind] in H.
     destruct (Nat.eqb (length chain) 32) eqn:Lc; cbn [negb] in H; [|discriminate].
@@ -226,12 +254,6 @@ Proof. intros (Hc & Hf & HP & _). repeat split; assumption. Qed.
 Lemma fingerprint_len nd : length (fingerprint nd) = 4%nat.
 Proof. unfold Bip32.fingerprint. rewrite firstn_length, hash160_len. reflexivity. Qed.
 
-(* ---- the child index with the hardened bit ---- *)
-Definition child_number (i : Z) (h : bool) : Z := if h then i + 2 ^ 31 else i.
-
-Lemma index_bits i (h : bool) : 0 <= i < 2 ^ 31 ->
-  (if h then Z.lor (Z.land i 2147483647) 2147483648 else Z.land i 2147483647) = child_number i h.
-Proof. intros H. rewrite land_mask by exact H. destruct h; cbn; [apply lor_hbit; exact H|reflexivity]. Qed.
 
 (* HMAC input of the first attempt of the private derivation *)
 Definition priv_data (k : Z) (P : pt) (i' : Z) (h : bool) : bytes :=
@@ -250,8 +272,8 @@ Proof.
   rewrite pack_BE_L_ok by exact Hi. cbn [bind].
   assert (D : (if h then do kb <- to_bytes_32 k; Ret (x00 :: kb ++ be_encode 4 (Z.to_N i'))
                else Ret (sec P ++ be_encode 4 (Z.to_N i'))) = Ret (priv_data k P i' h)).
-  { unfold priv_data. destruct h; [|reflexivity]. rewrite to_bytes_32_ok by lia. reflexivity. }
-  rewrite D. cbn [bind]. destruct loop_fuel as [|f]; [lia|]. cbn [Bip32.ckd_priv_loop].
+  { unfold priv_data. destruct h; [|reflexivity]. rewrite to_bytes_32_ok by glia. reflexivity. }
+  rewrite D. cbn [bind]. destruct loop_fuel as [|f]; [glia|]. cbn [Bip32.ckd_priv_loop].
   fold I64. fold IL.
   replace (IL <? order) with true by (symmetry; apply Z.ltb_lt; exact H1).
   replace ((IL + k) mod order =? 0) with false by (symmetry; apply Z.eqb_neq; exact H2).
@@ -284,11 +306,7 @@ Definition first_I64 (nd : node) (i : Z) (h : bool) : bytes :=
   end.
 Definition first_IL (nd : node) (i : Z) (h : bool) : Z := from_bytes_32 (firstn 32 (first_I64 nd i h)).
 
-Lemma range_tests i : 0 <= i < 2 ^ 31 -> (i <? 0) = false /\ (2147483648 <=? i) = false.
-Proof. intros H. split; [apply Z.ltb_ge|apply Z.leb_gt]; lia. Qed.
 
-Lemma child_number_range i h : 0 <= i < 2 ^ 31 -> 0 <= child_number i h < 2 ^ 32.
-Proof. intros H. unfold child_number. destruct h; lia. Qed.
 
 Lemma skip32_len k m : length (skipn 32 (hmac512 k m)) = 32%nat.
 Proof. rewrite skipn_length, hmac_len. reflexivity. Qed.
@@ -302,10 +320,10 @@ Lemma subkey_raw_prv nd k i h :
   subkey_raw nd i h true = Ret child /\ subkey_raw nd i h false = Ret (neuter_node child) /\ wf_node child.
 Proof.
   intros W S Hi H1 H2 k' child. destruct W as (Hc & Hf & HP & Hs). rewrite S in Hs. destruct Hs as [Hk HPk].
-  pose proof (Z.mod_pos_bound (first_IL nd i h + k) order ltac:(lia)) as B.
+  pose proof (Z.mod_pos_bound (first_IL nd i h + k) order ltac:(glia)) as B.
   assert (Wc : wf_node child).
-  { repeat split; cbn; try (apply skip32_len || apply fingerprint_len || lia);
-      try (unfold first_I64; rewrite S; apply skip32_len); try (apply smul_nonzero; unfold k'; lia); unfold k'; lia. }
+  { repeat split; cbn; try (apply skip32_len || apply fingerprint_len || glia);
+      try (unfold first_I64; rewrite S; apply skip32_len); try (apply smul_nonzero; unfold k'; glia); unfold k'; glia. }
   assert (R : forall ap, subkey_raw nd i h ap = if ap then Ret child else public_copy child).
   { intros ap. unfold Bip32.subkey_raw. destruct (range_tests i Hi) as [-> ->].
     rewrite (index_bits i h Hi). rewrite S.
@@ -316,7 +334,7 @@ Proof.
     - cbn [bind]. unfold child, k', first_IL, first_I64. rewrite S. reflexivity.
     - apply skip32_len.
     - apply fingerprint_len.
-    - lia. }
+    - glia. }
   split; [apply (R true)|]. split; [|exact Wc]. rewrite (R false). apply public_copy_ok. exact Wc.
 Qed.
 
@@ -376,9 +394,9 @@ Proof.
   assert (Q : padd (smul (first_IL (neuter_node nd) i false mod order) pG) (nd_point pt (neuter_node nd))
               = smul ((first_IL nd i false + k) mod order) pG).
   { rewrite IL. cbn [neuter_node nd_point]. rewrite HPk, smul_mod, <- smul_add, smul_mod. reflexivity. }
-  pose proof (Z.mod_pos_bound (first_IL nd i false + k) order ltac:(lia)) as B.
+  pose proof (Z.mod_pos_bound (first_IL nd i false + k) order ltac:(glia)) as B.
   destruct (subkey_raw_pub (neuter_node nd) i ap Wn eq_refl Hi) as [R3 _].
-  { rewrite Q. apply smul_nonzero. lia. }
+  { rewrite Q. apply smul_nonzero. glia. }
   rewrite R3. f_equal. unfold neuter_node at 2. cbn [nd_chain nd_depth nd_fpr nd_index nd_point].
   rewrite Q, I. reflexivity.
 Qed.
@@ -396,13 +414,7 @@ Definition xkey_of (nd : node) : xkey pt :=
   mkX pt (nd_depth pt nd) (nd_fpr pt nd) (nd_index pt nd) (nd_chain pt nd)
       (match nd_secret pt nd with Some k => Prv pt k | None => Pub pt (nd_point pt nd) end).
 
-Lemma hardened_child_number i h : 0 <= i < 2 ^ 31 -> hardened (child_number i h) = h.
-Proof.
-  intros H. unfold hardened, child_number. destruct h; [apply Z.leb_le|apply Z.leb_gt]; lia.
-Qed.
 
-Lemma from_bytes_32_nonneg b : 0 <= from_bytes_32 b.
-Proof. unfold from_bytes_32. lia. Qed.
 
 Lemma child_is_bip32 nd i h y :
   wf_node nd -> 0 <= i < 2 ^ 31 ->
@@ -437,12 +449,12 @@ Proof.
     apply orb_false_elim in T. destruct T as [T1 T2]. apply Z.leb_gt in T1.
     pose proof (from_bytes_32_nonneg (firstn 32 (first_I64 nd i false))) as NN. fold (first_IL nd i false) in NN.
     assert (Q : padd (smul (first_IL nd i false mod order) pG) (nd_point pt nd) <> pO).
-    { rewrite Z.mod_small by lia. intros Q. unfold point in T2. rewrite Q in T2.
+    { rewrite Z.mod_small by glia. intros Q. unfold point in T2. rewrite Q in T2.
       rewrite (proj2 (pt_eqb_spec _ _) eq_refl) in T2. discriminate. }
     destruct (subkey_raw_pub nd i false W S Hi Q) as [R Wc].
     eexists. split; [exact R|]. split; [|split; [exact Wc|reflexivity]].
     injection H as <-. unfold xkey_of. cbn [nd_depth nd_fpr nd_index nd_chain nd_secret key_point].
-    unfold key_fingerprint, identifier, Bip32.fingerprint, point. rewrite Z.mod_small by lia. reflexivity.
+    unfold key_fingerprint, identifier, Bip32.fingerprint, point. rewrite Z.mod_small by glia. reflexivity.
 Qed.
 
 Lemma master_is_bip32 seed :
@@ -461,11 +473,11 @@ Proof.
   - unfold Bip32.node_init, Bip32.key_init.
     replace ((k <? 1) || (order <=? k)) with true; [reflexivity|].
     symmetry. apply orb_true_iff. apply orb_true_iff in T. destruct T as [T|T]; [left|right; exact T].
-    apply Z.eqb_eq in T. apply Z.ltb_lt. lia.
+    apply Z.eqb_eq in T. apply Z.ltb_lt. glia.
   - apply orb_false_elim in T. destruct T as [T1 T2]. apply Z.eqb_neq in T1. apply Z.leb_gt in T2.
     eexists. split.
-    + apply node_init_prv; [apply skip32_len|reflexivity|lia].
-    + split; [reflexivity|]. repeat split; cbn; try apply skip32_len; try lia. apply smul_nonzero. lia.
+    + apply node_init_prv; [apply skip32_len|reflexivity|glia].
+    + split; [reflexivity|]. repeat split; cbn; try apply skip32_len; try glia. apply smul_nonzero. glia.
 Qed.
 
 (* uncached derivation along a list of cache keys: the reference semantics of histories *)
@@ -520,7 +532,7 @@ Lemma subkey_raw_metadata nd i h ap c :
 Proof.
   intros W H. unfold Bip32.subkey_raw in H.
   destruct (i <? 0) eqn:T1; [discriminate|]. destruct (2147483648 <=? i) eqn:T2; [discriminate|].
-  apply Z.ltb_ge in T1. apply Z.leb_gt in T2. assert (Hi : 0 <= i < 2 ^ 31) by lia.
+  apply Z.ltb_ge in T1. apply Z.leb_gt in T2. assert (Hi : 0 <= i < 2 ^ 31) by glia.
   rewrite (index_bits i h Hi) in H. split; [exact Hi|].
   set (fp := fingerprint nd) in *.
   match type of H with bind ?m _ = _ => destruct m as [key| |] eqn:K end; cbn [bind] in H; try discriminate.
@@ -575,7 +587,7 @@ Lemma serialize_pub nd : ser_ok nd -> serialize nd (Some false) = Ret (ser_head 
 Proof.
   intros [Hd Hi]. unfold Bip32.serialize. rewrite andb_false_r.
   replace ((0 <=? nd_depth pt nd) && (nd_depth pt nd <? 256)) with true
-    by (symmetry; apply andb_true_intro; split; [apply Z.leb_le|apply Z.ltb_lt]; lia).
+    by (symmetry; apply andb_true_intro; split; [apply Z.leb_le|apply Z.ltb_lt]; glia).
   cbn [bind]. rewrite pack_BE_L_ok by exact Hi. cbn [bind]. unfold ser_head.
   rewrite <- !app_assoc. reflexivity.
 Qed.
@@ -585,8 +597,8 @@ Lemma serialize_prv nd k : ser_ok nd -> nd_secret pt nd = Some k -> 1 <= k < ord
 Proof.
   intros [Hd Hi] S Hk. unfold Bip32.serialize. rewrite S. cbn [is_some negb andb].
   replace ((0 <=? nd_depth pt nd) && (nd_depth pt nd <? 256)) with true
-    by (symmetry; apply andb_true_intro; split; [apply Z.leb_le|apply Z.ltb_lt]; lia).
-  cbn [bind]. rewrite pack_BE_L_ok by exact Hi. cbn [bind]. rewrite to_bytes_32_ok by lia. cbn [bind].
+    by (symmetry; apply andb_true_intro; split; [apply Z.leb_le|apply Z.ltb_lt]; glia).
+  cbn [bind]. rewrite pack_BE_L_ok by exact Hi. cbn [bind]. rewrite to_bytes_32_ok by glia. cbn [bind].
   unfold ser_head. rewrite <- !app_assoc. reflexivity.
 Qed.
 
@@ -638,7 +650,7 @@ Proof.
   rewrite S4546. cbn [bytes_eqb byte_eqb]. rewrite byte_eqb_refl. cbn [andb].
   assert (S46 : skipn 46 data = be_encode 32 (Z.to_N k)).
   { change 46%nat with (45 + 1)%nat. rewrite skipn_plus, S45. reflexivity. }
-  rewrite S46, from_to_bytes_32 by lia. rewrite be4_roundtrip by exact Hi. rewrite b2z_z2b by exact Hd.
+  rewrite S46, from_to_bytes_32 by glia. rewrite be4_roundtrip by exact Hi. rewrite b2z_z2b by exact Hd.
   rewrite node_init_prv by assumption. f_equal. destruct nd as [c d f i s P]. cbn in *. subst s P. reflexivity.
 Qed.
 
@@ -711,7 +723,7 @@ Proof.
     assert (P1 : hparse_data net true (Some (pv ++ ser_head nd ++ x00 :: be_encode 32 (Z.to_N k))) = Ret (Some nd)).
     { unfold Bip32.hparse_data. rewrite E3, starts_with_app, D. reflexivity. }
     assert (P2 : hparse_data net false (Some (pv ++ ser_head nd ++ x00 :: be_encode 32 (Z.to_N k))) = Ret None).
-    { unfold Bip32.hparse_data. rewrite E4, starts_with_length_neq; [reflexivity|lia|congruence]. }
+    { unfold Bip32.hparse_data. rewrite E4, starts_with_length_neq; [reflexivity|glia|congruence]. }
     split; [exact P1|]. split; [exact P2|]. unfold Bip32.parse_hd_data. rewrite P1. reflexivity.
   - destruct (deserialize_pub nd pb W So L2) as [L78 D]. cbn zeta in L78, D.
     exists (pb ++ ser_head nd ++ sec (nd_point pt nd)).
@@ -720,7 +732,7 @@ Proof.
     assert (P1 : hparse_data net false (Some (pb ++ ser_head nd ++ sec (nd_point pt nd))) = Ret (Some (neuter_node nd))).
     { unfold Bip32.hparse_data. rewrite E4, starts_with_app, D. reflexivity. }
     assert (P2 : hparse_data net true (Some (pb ++ ser_head nd ++ sec (nd_point pt nd))) = Ret None).
-    { unfold Bip32.hparse_data. rewrite E3, starts_with_length_neq; [reflexivity|lia|congruence]. }
+    { unfold Bip32.hparse_data. rewrite E3, starts_with_length_neq; [reflexivity|glia|congruence]. }
     split; [exact P1|]. split; [exact P2|]. unfold Bip32.parse_hd_data. rewrite P2. cbn [bind]. exact P1.
 Qed.
 
@@ -773,13 +785,70 @@ Proof.
   rewrite pack_BE_L_ok by exact Hi. cbn [bind].
   assert (D : (if h then do kb <- to_bytes_32 k; Ret (x00 :: kb ++ be_encode 4 (Z.to_N i'))
                else Ret (sec P ++ be_encode 4 (Z.to_N i'))) = Ret (priv_data k P i' h)).
-  { unfold priv_data. destruct h; [|reflexivity]. rewrite to_bytes_32_ok by lia. reflexivity. }
-  rewrite D. cbn [bind]. destruct loop_fuel as [|f]; [lia|]. cbn [Bip32.ckd_priv_loop pred].
+  { unfold priv_data. destruct h; [|reflexivity]. rewrite to_bytes_32_ok by glia. reflexivity. }
+  rewrite D. cbn [bind]. destruct loop_fuel as [|f]; [glia|]. cbn [Bip32.ckd_priv_loop pred].
   fold I64. fold IL.
   replace ((IL <? order) && negb ((IL + k) mod order =? 0)) with false; [reflexivity|].
   symmetry. destruct H as [H|H].
   - replace (IL <? order) with false by (symmetry; apply Z.ltb_ge; exact H). reflexivity.
   - rewrite H. cbn. apply andb_false_r.
+Qed.
+
+(* what happens outside the hypothesis of pub_priv_commute, on a private node and its public copy:
+   the BIP calls both children invalid; the private side hashes again (input 01 || I_R || index), the public side goes
+   on with I_L mod n, and fails only when the sum is the point at infinity *)
+Lemma divergence nd k i ap :
+  wf_node nd -> nd_secret pt nd = Some k -> 0 <= i < 2 ^ 31 ->
+  let I64 := first_I64 nd i false in
+  let IL := first_IL nd i false in
+  order <= IL \/ (IL + k) mod order = 0 ->
+  spec_child (xkey_of nd) i = None /\
+  spec_child (xkey_of (neuter_node nd)) i = None /\
+  ckd_priv loop_fuel k (nd_chain pt nd) i false (Some (nd_point pt nd)) =
+    ckd_priv_loop (pred loop_fuel) k (nd_chain pt nd) (x01 :: skipn 32 I64 ++ be_encode 4 (Z.to_N i)) (be_encode 4 (Z.to_N i)) /\
+  let Q := padd (smul (IL mod order) pG) (nd_point pt nd) in
+  (Q <> pO -> subkey_raw (neuter_node nd) i false ap =
+              Ret (mkNode (skipn 32 I64) (nd_depth pt nd + 1) (fingerprint nd) i None Q)) /\
+  (Q = pO -> subkey_raw (neuter_node nd) i false ap = Raise E_VALUE).
+Proof.
+  intros W S Hi I64 IL H. pose proof W as (Hc & Hf & HP & Hs). rewrite S in Hs. destruct Hs as [Hk HPk].
+  assert (Wn : wf_node (neuter_node nd)) by (apply neuter_wf; exact W).
+  assert (In : first_I64 (neuter_node nd) i false = I64).
+  { unfold I64, first_I64. rewrite S. reflexivity. }
+  assert (ILn : first_IL (neuter_node nd) i false = IL) by (unfold IL, first_IL; now rewrite In).
+  pose proof (from_bytes_32_nonneg (firstn 32 I64)) as NN. fold (first_IL nd i false) in NN. fold IL in NN.
+  pose proof (hardened_child_number i false Hi) as Hh. cbn [child_number] in Hh.
+  split; [|split; [|split; [|intros Q; split]]].
+  - unfold Bip32Spec.child, xkey_of. cbn [x_key x_chain]. rewrite S. unfold CKDpriv.
+    rewrite Hh.
+    assert (E : hmac512 (nd_chain pt nd) (sec (point pt smul pG k) ++ ser32 i) = I64).
+    { unfold I64, first_I64, priv_data, ser32, point. rewrite S, HPk. reflexivity. }
+    rewrite E. change (parse256 (firstn 32 I64)) with IL.
+    replace ((order <=? IL) || ((IL + k) mod order =? 0)) with true; [reflexivity|].
+    symmetry. apply orb_true_iff. destruct H as [H|H]; [left; apply Z.leb_le; exact H|right; apply Z.eqb_eq; exact H].
+  - unfold Bip32Spec.child, xkey_of. cbn [x_key x_chain neuter_node nd_secret nd_chain nd_point]. unfold CKDpub.
+    rewrite Hh.
+    assert (E : hmac512 (nd_chain pt nd) (sec (nd_point pt nd) ++ ser32 i) = I64).
+    { unfold I64, first_I64, priv_data, ser32. rewrite S. reflexivity. }
+    rewrite E. change (parse256 (firstn 32 I64)) with IL.
+    destruct H as [H|H].
+    + replace (order <=? IL) with true by (symmetry; apply Z.leb_le; exact H). reflexivity.
+    + assert (Z0 : padd (point pt smul pG IL) (nd_point pt nd) = pO).
+      { unfold point. rewrite HPk, <- smul_add. apply smul_zero. exact H. }
+      rewrite Z0, (proj2 (pt_eqb_spec pO pO) eq_refl), orb_true_r. reflexivity.
+  - pose proof (ckd_priv_retry k (nd_chain pt nd) i false (nd_point pt nd) Hk ltac:(glia)) as R. cbn zeta in R.
+    unfold I64, first_I64. rewrite S. apply R. unfold IL, first_IL, first_I64 in H. rewrite S in H. exact H.
+  - intros HQ. destruct (subkey_raw_pub (neuter_node nd) i ap Wn eq_refl Hi) as [R _].
+    + rewrite ILn. exact HQ.
+    + rewrite R, In, ILn. reflexivity.
+  - intros HQ. unfold Bip32.subkey_raw. destruct (range_tests i Hi) as [-> ->].
+    rewrite (index_bits i false Hi). cbn [neuter_node nd_secret nd_chain nd_point child_number].
+    unfold subkey_public_pair_chain_code_pair. rewrite pack_BE_l_ok by exact Hi. cbn [bind].
+    assert (E : hmac512 (nd_chain pt nd) (sec (nd_point pt nd) ++ be_encode 4 (Z.to_N i)) = I64).
+    { unfold I64, first_I64, priv_data. rewrite S. reflexivity. }
+    rewrite E. change (from_bytes_32 (firstn 32 I64)) with IL.
+    change (padd (smul (IL mod order) pG) (nd_point pt nd)) with Q.
+    rewrite HQ, (proj2 (pt_eqb_spec pO pO) eq_refl). reflexivity.
 Qed.
 
 (* ---------------------------------------------------------------------------------------------- *)
@@ -1371,3 +1440,228 @@ Proof.
   { clear. induction n as [|n IH]; intros lo; cbn [zrange_aux In]; [lia|]. rewrite IH. lia. }
   rewrite G. lia.
 Qed.
+
+(* ---------------------------------------------------------------------------------------------- *)
+Section WithGroup2.
+Variable pt : Type.
+Variable padd : pt -> pt -> pt.
+Variable pO : pt.
+Variable smul : Z -> pt -> pt.
+Variable pG : pt.
+Variable order : Z.
+Variable pt_eqb : pt -> pt -> bool.
+Variable sec : pt -> bytes.
+Variable xy : pt -> bytes.
+Variable hmac512 : bytes -> bytes -> bytes.
+Variable hash160 : bytes -> bytes.
+Variable dsha256 : bytes -> bytes.
+Variable loop_fuel : nat.
+Hypothesis order_range : 1 < order <= 2 ^ 256.
+Hypothesis smul_add : forall a b, smul (a + b) pG = padd (smul a pG) (smul b pG).
+Hypothesis smul_mod : forall a, smul (a mod order) pG = smul a pG.
+Hypothesis smul_zero : forall a, smul a pG = pO <-> a mod order = 0.
+Hypothesis pt_eqb_spec : forall P Q, pt_eqb P Q = true <-> P = Q.
+
+Ltac clr2 := try clear xy; try clear dsha256; try clear pt_eqb_spec; try clear smul_zero; try clear smul_mod; try clear smul_add.
+Ltac hlia := clr2; lia.
+
+Notation path_walk := (path_walk pt padd pO smul pG order pt_eqb sec hmac512 hash160 loop_fuel).
+Notation subkey_for_path := (subkey_for_path pt padd pO smul pG order pt_eqb sec hmac512 hash160 loop_fuel).
+
+(* spelling a hardened element with ', p or H makes no difference, to the result and to the cache *)
+Lemma path_walk_respell : forall ts ts' c p key, Forall2 same_token ts ts' -> path_walk c p key ts = path_walk c p key ts'.
+Proof.
+  induction ts as [|v ts IH]; intros ts' c p key F; inversion F as [|? v' ? ts1 Hv F']; subst; [reflexivity|].
+  cbn [Bip32.path_walk]. rewrite (path_token_respell v v' Hv).
+  destruct (path_token v') as [[vi h]| |]; try reflexivity.
+  destruct (Bip32.subkey _ _ _ _ _ _ _ _ _ _ _ c p key vi h _) as [[k| |] c1]; try reflexivity.
+  apply IH. exact F'.
+Qed.
+
+Lemma subkey_for_path_respell c p nd path path' fp ts ts' :
+  path_tokens path = (fp, ts) -> path_tokens path' = (fp, ts') -> Forall2 same_token ts ts' ->
+  subkey_for_path c p nd path = subkey_for_path c p nd path'.
+Proof.
+  intros H1 H2 F. unfold Bip32.subkey_for_path. rewrite H1, H2, (path_walk_respell ts ts' c p nd F). reflexivity.
+Qed.
+
+(* ---- Electrum ---- *)
+Notation ewallet := (ewallet pt).
+Notation electrum_init := (electrum_init pt pO smul pG order pt_eqb).
+Notation electrum_public_copy := (electrum_public_copy pt pO smul pG order pt_eqb).
+Notation electrum_subkey := (electrum_subkey pt padd pO smul pG order pt_eqb xy dsha256).
+
+Definition wf_ew (w : ewallet) : Prop :=
+  ew_point pt w <> pO /\
+  match ew_secret pt w with Some k => 1 <= k < order /\ ew_point pt w = smul k pG | None => True end.
+Definition neuter_ew (w : ewallet) : ewallet := mkEw pt None (ew_point pt w).
+
+Lemma pt_eqb_false2 P Q : P <> Q -> pt_eqb P Q = false.
+Proof. intros H. destruct (pt_eqb P Q) eqn:E; [|reflexivity]. apply pt_eqb_spec in E. contradiction. Qed.
+
+Lemma electrum_init_prv k : electrum_init (Some k) None =
+  if (k <? 1) || (order <=? k) then Raise E_SECRET
+  else if pt_eqb (smul k pG) pO then Raise E_PUBPAIR else Ret (mkEw pt (Some k) (smul k pG)).
+Proof.
+  unfold Bip32.electrum_init, Bip32.key_init. destruct ((k <? 1) || (order <=? k)); [reflexivity|].
+  destruct (pt_eqb (smul k pG) pO); reflexivity.
+Qed.
+Lemma electrum_init_pub P : electrum_init None (Some P) = if pt_eqb P pO then Raise E_PUBPAIR else Ret (mkEw pt None P).
+Proof. unfold Bip32.electrum_init, Bip32.key_init. destruct (pt_eqb P pO); reflexivity. Qed.
+
+Lemma electrum_public_copy_ok w : wf_ew w -> electrum_public_copy w = Ret (match ew_secret pt w with Some _ => neuter_ew w | None => w end).
+Proof.
+  intros [HP _]. unfold Bip32.electrum_public_copy. destruct (ew_secret pt w); [|reflexivity].
+  rewrite electrum_init_pub, pt_eqb_false2 by exact HP. reflexivity.
+Qed.
+
+Lemma electrum_commute w k path :
+  wf_ew w -> ew_secret pt w = Some k ->
+  (exists c, electrum_subkey w path = Ret c /\ wf_ew c /\ ew_secret pt c <> None /\
+             electrum_subkey (neuter_ew w) path = Ret (neuter_ew c) /\
+             electrum_public_copy c = Ret (neuter_ew c)) \/
+  (exists e e', electrum_subkey w path = Raise e /\ electrum_subkey (neuter_ew w) path = Raise e').
+Proof.
+  intros [HP Hs] S. rewrite S in Hs. destruct Hs as [Hk HPk].
+  unfold Bip32.electrum_subkey. cbn [neuter_ew ew_secret ew_point]. rewrite S.
+  unfold electrum_mpk. change (ew_point pt (neuter_ew w)) with (ew_point pt w).
+  destruct (match split ch_slash path with
+            | [n; fc] => Ret (n, fc) | [n] => Ret (n, [x30]) | _ => Raise E_VALUE end) as [[n fc]|e|] eqn:T.
+  - cbn [bind]. set (offset := from_bytes_32 (dsha256 (n ++ ch_colon :: fc ++ ch_colon :: xy (ew_point pt w)))).
+    replace (k =? 0) with false by (symmetry; apply Z.eqb_neq; hlia).
+    assert (Q : padd (smul offset pG) (ew_point pt w) = smul ((k + offset) mod order) pG).
+    { rewrite HPk, <- smul_add, smul_mod. f_equal. hlia. }
+    rewrite Q, electrum_init_prv, electrum_init_pub.
+    pose proof (Z.mod_pos_bound (k + offset) order ltac:(hlia)) as B.
+    destruct (Z.eq_dec ((k + offset) mod order) 0) as [Z0|NZ].
+    + right. rewrite Z0. replace ((0 <? 1) || (order <=? 0)) with true by reflexivity.
+      assert (E0 : smul 0 pG = pO) by (apply smul_zero; apply Z.mod_0_l; hlia).
+      rewrite E0, (proj2 (pt_eqb_spec pO pO) eq_refl). eauto.
+    + left. replace (((k + offset) mod order <? 1) || (order <=? (k + offset) mod order)) with false
+        by (symmetry; apply orb_false_intro; [apply Z.ltb_ge|apply Z.leb_gt]; hlia).
+      assert (NO : smul ((k + offset) mod order) pG <> pO).
+      { intros E. apply smul_zero in E. rewrite Z.mod_mod in E by hlia. contradiction. }
+      rewrite pt_eqb_false2 by exact NO.
+      eexists. split; [reflexivity|]. split; [split; cbn; [exact NO|split; [hlia|reflexivity]]|].
+      split; [discriminate|]. split; [reflexivity|].
+      unfold Bip32.electrum_public_copy. cbn [ew_secret ew_point]. rewrite electrum_init_pub, pt_eqb_false2 by exact NO. reflexivity.
+  - right. cbn [bind]. eauto.
+  - exfalso. destruct (split ch_slash path) as [|a [|b [|? ?]]]; discriminate.
+Qed.
+
+End WithGroup2.
+
+(* ---------------------------------------------------------------------------------------------- *)
+(* a concrete instance of all the parameters: the hypotheses are satisfiable, and the statements that need a
+   hypothesis are false without it.  Group: Z/2 on bool. *)
+Module Toy.
+Definition pt := bool.
+Definition padd := xorb.
+Definition pO := false.
+Definition smul (k : Z) (P : bool) : bool := Z.odd k && P.
+Definition pG := true.
+Definition order : Z := 2.
+Definition pt_eqb := Bool.eqb.
+Definition sec (P : bool) : bytes := (if P then x03 else x02) :: repeatb x07 32.
+Definition xy (P : bool) : bytes := repeatb (if P then x01 else x00) 64.
+Definition unsec (b : bytes) : outcome bool := if bytes_eqb b (sec true) then Ret true else Raise E_ENCODING.
+Definition hash160 (b : bytes) : bytes := repeatb x09 20.
+Definition dsha256 (b : bytes) : bytes := repeatb x00 32.
+(* I_L = 0 for every input, I_R = 32 bytes 0x0c: the first attempt always succeeds for k = 1 *)
+Definition hmac_good (k m : bytes) : bytes := repeatb x00 32 ++ repeatb x0c 32.
+(* I_L = 2 >= n on the first attempt (I_R = 0x0a..), I_L = 0 on the retry whose input starts with 01 (I_R = 0x0b..) *)
+Definition hmac_retry (k m : bytes) : bytes :=
+  match m with
+  | x01 :: _ => repeatb x00 32 ++ repeatb x0b 32
+  | _ => (repeatb x00 31 ++ [x02]) ++ repeatb x0a 32
+  end.
+Definition b58enc (c : N) (b : bytes) : bytes := n2b c :: b.
+Definition b58dec (c : N) (s : bytes) : option bytes :=
+  match s with h :: t => if byte_eqb h (n2b c) then Some t else None | [] => None end.
+
+Lemma order_range : 1 < order <= 2 ^ 256. Proof. unfold order. lia. Qed.
+Lemma smul_add a b : smul (a + b) pG = padd (smul a pG) (smul b pG).
+Proof. unfold smul, pG, padd. rewrite !andb_true_r. apply Z.odd_add. Qed.
+Lemma odd_mod2 a : Z.odd (a mod 2) = Z.odd a.
+Proof.
+  rewrite (Z.div_mod a 2) at 2 by lia. rewrite Z.add_comm, Z.odd_add_mul_2. reflexivity.
+Qed.
+Lemma smul_mod a : smul (a mod order) pG = smul a pG.
+Proof. unfold smul, order. now rewrite odd_mod2. Qed.
+Lemma smul_zero a : smul a pG = pO <-> a mod order = 0.
+Proof.
+  unfold smul, pG, pO, order. rewrite andb_true_r. rewrite <- odd_mod2.
+  pose proof (Z.mod_pos_bound a 2 ltac:(lia)) as B. split; intros H.
+  - destruct (Z.eq_dec (a mod 2) 0) as [E|E]; [exact E|]. replace (a mod 2) with 1 in H by lia. discriminate.
+  - rewrite H. reflexivity.
+Qed.
+Lemma pt_eqb_spec P Q : pt_eqb P Q = true <-> P = Q. Proof. apply Bool.eqb_true_iff. Qed.
+Lemma hmac_good_len k m : length (hmac_good k m) = 64%nat. Proof. reflexivity. Qed.
+Lemma hmac_retry_len k m : length (hmac_retry k m) = 64%nat.
+Proof. unfold hmac_retry. destruct m as [|b m]; [reflexivity|]. destruct b; reflexivity. Qed.
+Lemma hash160_len b : length (hash160 b) = 20%nat. Proof. reflexivity. Qed.
+Lemma sec_len P : P <> pO -> length (sec P) = 33%nat. Proof. destruct P; reflexivity. Qed.
+Lemma sec_head P : P <> pO -> exists b r, sec P = b :: r /\ b <> x00.
+Proof. intros _. destruct P; eexists; eexists; (split; [reflexivity|discriminate]). Qed.
+Lemma unsec_sec P : P <> pO -> unsec (sec P) = Ret P.
+Proof. destruct P; [reflexivity|]. intros H. exfalso. apply H. reflexivity. Qed.
+Lemma b58_roundtrip c b : b58dec c (b58enc c b) = Some b.
+Proof. unfold b58dec, b58enc. now rewrite byte_eqb_refl. Qed.
+
+Definition root : node bool := mkNode bool (repeatb x05 32) 0 [x00; x00; x00; x00] 0 (Some 1) true.
+Lemma root_wf : wf_node bool pO smul pG order root.
+Proof. unfold wf_node, root, order. cbn. repeat split; try discriminate; lia. Qed.
+End Toy.
+
+(* ---------------------------------------------------------------------------------------------- *)
+(* the generated prefix table *)
+From PV Require Import Gen.GenBip32Prefixes.
+From Coq Require Import String.
+
+Definition codec_mismatch (net : bipnet) : bool := negb (N.eqb (bn_print_codec net) (bn_parse_codec net)).
+
+Lemma table_nets_ok : forall r, In r bip_prefix_table -> net_ok (row_net r) = true.
+Proof. apply forallb_forall. vm_compute. reflexivity. Qed.
+
+Definition row_name (r : string * N * option bytes * option bytes * option bytes * option bytes * N * N) : string * N :=
+  let '(s, kt, _, _, _, _, _, _) := r in (s, kt).
+Definition mismatch_rows := filter (fun r => codec_mismatch (row_net r)) bip_prefix_table.
+
+(* the rows whose printer and parser use different checksum functions (known finding grs-bip49-bip84-checksum) *)
+Lemma mismatch_rows_are :
+  map row_name mismatch_rows =
+  [("GRS", 49%N); ("GRS", 84%N); ("GRSRT", 49%N); ("GRSRT", 84%N); ("TGRS", 49%N); ("TGRS", 84%N)]%string.
+Proof. vm_compute. reflexivity. Qed.
+
+Definition dummy_row : string * N * option bytes * option bytes * option bytes * option bytes * N * N :=
+  (""%string, 0%N, None, None, None, None, 0%N, 0%N).
+Definition bad_row := hd dummy_row mismatch_rows.
+Lemma bad_row_in : In bad_row bip_prefix_table /\ codec_mismatch (row_net bad_row) = true.
+Proof.
+  assert (E : mismatch_rows = bad_row :: tl mismatch_rows) by (vm_compute; reflexivity).
+  apply (filter_In (fun r => codec_mismatch (row_net r))). fold mismatch_rows. rewrite E. left. reflexivity.
+Qed.
+
+(* concrete witnesses in the toy instance *)
+Lemma toy_commute_fails :
+  let sk := subkey_raw bool xorb false Toy.smul true 2 Bool.eqb Toy.sec Toy.hmac_retry Toy.hash160 8 in
+  exists c1 c2, sk Toy.root 0 false true = Ret c1 /\ sk (neuter_node bool Toy.root) 0 false false = Ret c2 /\
+                c2 <> neuter_node bool c1.
+Proof.
+  cbn zeta. eexists. eexists. split; [vm_compute; reflexivity|]. split; [vm_compute; reflexivity|].
+  vm_compute. discriminate.
+Qed.
+
+Lemma toy_commute_holds :
+  let sk := subkey_raw bool xorb false Toy.smul true 2 Bool.eqb Toy.sec Toy.hmac_good Toy.hash160 1 in
+  exists c1, sk Toy.root 5 false true = Ret c1 /\ sk (neuter_node bool Toy.root) 5 false false = Ret (neuter_node bool c1).
+Proof. cbn zeta. eexists. split; vm_compute; reflexivity. Qed.
+
+Lemma toy_text_fails :
+  exists text,
+    hwif bool Toy.sec Toy.b58enc (row_net bad_row) Toy.root true = Ret text /\
+    parse_hd bool false Toy.smul true 2 Bool.eqb Toy.unsec Toy.b58dec (row_net bad_row) text = Ret None.
+Proof. eexists. split; vm_compute; reflexivity. Qed.
+
+Lemma toy_root_ser_ok : ser_ok bool Toy.root.
+Proof. unfold ser_ok, Toy.root. cbn. lia. Qed.
